@@ -137,6 +137,12 @@ func c08cli(c *h.Ctx) {
 			return fmt.Sprintf("printf '%s where=[%s]\\n'%s >> '%s'", format, where, argv, trace)
 		}
 		cmd := line("cmd")
+		// one stage (sometimes) makes its command fail after it has printed: what it was given must not reach what runs next
+		failing := ""
+		if r.Chance(35) {
+			failing = p1[r.Intn(len(p1))].id
+			cmd += "; if [ \"$STAGE_ID\" = " + failing + " ]; then exit 3; fi"
+		}
 		tdef := gen.OM{{K: "command", V: []interface{}{cmd}}, {K: "env", V: taskEnv}, {K: "variables", V: taskVars}}
 		if r.Chance(60) {
 			// hooks of the shared task see the same overrides; a hook that (re)assigns a variable must not carry it over
@@ -170,6 +176,9 @@ func c08cli(c *h.Ctx) {
 				}
 				if s.cond != "" {
 					o.Set("condition", s.cond)
+				}
+				if s.id == failing {
+					o.Set("allow_failure", true)
 				}
 				if len(s.deps) > 0 {
 					var d []interface{}
@@ -318,7 +327,7 @@ func c08nested(c *h.Ctx) {
 		os.MkdirAll(real+"/sub", 0o755)
 		os.MkdirAll(real+"/sub2", 0o755)
 		line := func(trace string) string {
-			return fmt.Sprintf("printf 'RUN X=[%%s] Y=[%%s] V=[{{ .V }}] W=[{{ .W }}] pwd=[%%s]\\n' \"$X\" \"$Y\" \"$(pwd)\" >> '%s'", trace)
+			return fmt.Sprintf("sleep 0.1; printf 'RUN S=[%%s] X=[%%s] Y=[%%s] V=[{{ .V }}] W=[{{ .W }}] pwd=[%%s]\\n' \"$SIB\" \"$X\" \"$Y\" \"$(pwd)\" >> '%s'", trace)
 		}
 		mk := func(trace string) gen.OM {
 			inner1 := gen.OM{{K: "name", V: "i1"}, {K: "task", V: "shared"}}
@@ -332,7 +341,8 @@ func c08nested(c *h.Ctx) {
 			inc2 := gen.OM{{K: "name", V: "inc"}, {K: "pipeline", V: "inner"}, {K: "env", V: gen.OM{{K: "X", V: "from-outer2"}}}, {K: "variables", V: gen.OM{{K: "W", V: "from-outer2"}}}, {K: "dir", V: real + "/sub2"}}
 			return gen.OM{{K: "tasks", V: gen.OM{{K: "shared", V: gen.OM{{K: "command", V: []interface{}{line(trace)}}, {K: "variables", V: gen.OM{{K: "V", V: "task-v"}, {K: "W", V: "task-w"}}}}}}},
 				{K: "pipelines", V: gen.OM{{K: "inner", V: []interface{}{inner1, gen.OM{{K: "name", V: "i2"}, {K: "task", V: "shared"}, {K: "depends_on", V: []interface{}{"i1"}}}}},
-					{K: "outer", V: []interface{}{inc}}, {K: "outer2", V: []interface{}{inc2}}}}}
+					// `sib` runs beside the including stage, while the included pipeline is under way
+					{K: "outer", V: []interface{}{inc, gen.OM{{K: "name", V: "sib"}, {K: "task", V: "shared"}, {K: "env", V: gen.OM{{K: "SIB", V: "1"}}}}}}, {K: "outer2", V: []interface{}{inc2}}}}}
 		}
 		run := func(tag string, targets ...string) ([]string, h.ProcResult) {
 			trace := real + "/trace." + tag
@@ -351,6 +361,19 @@ func c08nested(c *h.Ctx) {
 			c.Violate("cli-crash/"+h.TopFrame(string(res.Stderr)), "taskctl died: "+how, cas)
 			return
 		}
+		// the sibling stage of the including stage sees nothing of what was written on the including stage
+		var rest []string
+		for _, l := range got {
+			if strings.Contains(l, "S=[1]") {
+				want := strings.Replace(ref[len(ref)-1], "S=[]", "S=[1]", 1)
+				if ref1 := strings.Replace(ref[0], "S=[]", "S=[1]", 1); l != want && l != ref1 {
+					c.Violate("cli-including-stage-overrides-reach-a-sibling-stage", fmt.Sprintf("`taskctl %s`: the stage beside the including stage printed %q; with its own settings it prints %q", strings.Join(targets, " "), l, want), cas)
+				}
+				continue
+			}
+			rest = append(rest, l)
+		}
+		got = rest
 		if res0.Exit != 0 || res.Exit != 0 || len(ref) != 2 || len(got) < 2 {
 			c.Violate("cli-nested-run-failed", fmt.Sprintf("exit %d/%d, %d and %d executions recorded", res0.Exit, res.Exit, len(ref), len(got)), cas)
 			return
